@@ -29,6 +29,7 @@ Singles ==
     V("S", <<97, 98, 95, 49>>), V("S", <<116, 114, 117, 101>>), V("S", <<110, 111, 32, 105, 100>>), V("S", <<>>),
     V("b", <<>>), V("b", <<0, 255, 16>>), V("b", [i \in 1..24 |-> i * 9]), V("m", <<144, 60, 127, 0>>), V("r", <<35757, 61453>>),
     V("T", <<>>), V("F", <<>>), V("N", <<>>), V("I", <<>>),
+    V("t", <<58463, 63232, 0, 0>>), V("t", <<58463, 63239, 0, 0>>), V("t", <<58463, 63292, 0, 0>>), V("t", <<58464, 1296, 0, 0>>), V("t", <<58465, 18559, 0, 0>>),   \* 2021-06-01 00:00:00, 00:00:07, 00:01:00, 01:00:00, 23:59:59
     V("t", <<0, 0, 0, 1>>), V("t", <<58462, 13440, 0, 0>>), V("t", <<58462, 13441, 32768, 0>>), V("t", <<58462, 13500, 8256, 0>>) }
 Runs == { [k |-> "run", t |-> t, start |-> s, delta |-> d, n |-> n] : t \in {"i", "h", "f"}, s \in {0 - 7, 2}, d \in {0, 0 - 3, 1}, n \in 3..7 }
 \* runs of 64-bit integers whose stride does not fit into 32 bits: value i = (shi + (i - 1) * dhi) * 2^32 + 5
